@@ -131,6 +131,13 @@ def main(job_path):
         # harness bug: innermost frame in the harness itself (the test models
         # are "user code" called by nessai and do not count), or no nessai
         # frame at all
+        # a signal that the harness delivers on purpose (vf/faults.py line
+        # hook, os.kill inside a test model) surfaces in the frame that sent
+        # it when no handler of nessai's is installed (KeyboardInterrupt):
+        # that frame is the instant of delivery, not a harness defect
+        while tb_files and tb_files[-1].endswith(
+                ("/vf/faults.py", "/vf/models.py")):
+            tb_files.pop()
         inner = tb_files[-1] if tb_files else ""
         rep["exc_in_harness"] = (
             ("/vf/" in inner and not inner.endswith("/vf/models.py"))
